@@ -93,6 +93,17 @@ def binop(ex, op, a, b, st, ctx):
     if isinstance(a, Opaque) or isinstance(b, Opaque):
         return Opaque("op")
     if isinstance(a, InfVal) or isinstance(b, InfVal):
+        # +-inf against finite values (A1: every other real-valued quantity is finite): inf +- x = inf, x - inf = -inf, inf * c = sign(c) inf
+        # for a concrete non-zero number c; everything else (inf - inf, inf * symbolic, division) is not modelled
+        if op in ("Add", "Sub") and not (isinstance(a, InfVal) and isinstance(b, InfVal)):
+            if isinstance(a, InfVal):
+                return InfVal(a.sign)
+            return InfVal(b.sign if op == "Add" else -b.sign)
+        if op == "Mult":
+            other = b if isinstance(a, InfVal) else a
+            inf = a if isinstance(a, InfVal) else b
+            if _num(other) and other != 0:
+                return InfVal(inf.sign if other > 0 else -inf.sign)
         raise Havoc("arithmetic on inf")
     # ---------------- concrete-length vectors (stage arrays, table rows): element-wise, scalars broadcast
     if isinstance(a, Ref) and st.obj(a).kind == "stages":
@@ -853,6 +864,8 @@ def _abs(ex, v, ctx):
         return z3.If(v >= 0, v, -v)
     if isinstance(v, Poly) and v.is_const():
         return abs(v.const_value())
+    if isinstance(v, InfVal):
+        return InfVal(1)
     raise Havoc("abs of %s" % type(v).__name__)
 
 
@@ -863,6 +876,8 @@ def _sign(ex, v, ctx):
         if z3.is_int(v):
             return z3.If(v > 0, z3.IntVal(1), z3.If(v < 0, z3.IntVal(-1), z3.IntVal(0)))
         return z3.If(v > 0, z3.RealVal(1), z3.If(v < 0, z3.RealVal(-1), z3.RealVal(0)))
+    if isinstance(v, InfVal):
+        return v.sign
     raise Havoc("sign")
 
 
@@ -1307,6 +1322,18 @@ def _isinstance(ex, st, ctx, args, kwargs):
 @reg("issubclass")
 def _issubclass(ex, st, ctx, args, kwargs):
     raise Havoc("issubclass")
+
+
+@reg("numpy.isinf", "D.ar_numpy.isinf")
+def _isinf(ex, st, ctx, args, kwargs):
+    v = args[0]
+    if isinstance(v, InfVal):
+        return True
+    if _scalar(v):
+        return False         # A1: reals are finite
+    if isinstance(v, Opaque):
+        return z3.Bool(fresh_name("isinf"))
+    raise Havoc("isinf")
 
 
 @reg("D.ar_numpy.isfinite", "numpy.isfinite")
